@@ -15,12 +15,12 @@ from mc.pool import h64
 
 ID = "C19"
 LEVEL = "model_checking"
-LEVEL_TEXT = ("Explicit-state search over histories of assemblies run in one process: alphabet of 12 events (valid program; program defining "
+LEVEL_TEXT = ("Explicit-state search over histories of assemblies run in one process: alphabet of 14 events (valid program; program defining "
               "macros, symbols and a named scope whose names collide with the probes'; table load; custom .map; HiROM; failure in the "
               "scanner / parser / code generation / label pass / emission, each mid-way; the CLI in-process with -m and -D; relocation + "
-              "incbin + include), every history up to depth 3 (thorough 4) executed from a pristine forked process; the state after each "
+              "incbin + include; failure inside an included file; missing include file), every history up to depth 3 (thorough 4) executed from a pristine forked process; the state after each "
               "event is the fingerprint of all module-level mutable state of a816.* and script.* (module globals, class attributes, "
-              "function defaults, cache sizes). In every reached state each of 8 probe programs (valid LoROM/HiROM/.map, macros+scopes, "
+              "function defaults, cache sizes). In every reached state each of 10 probe programs (valid LoROM/HiROM/.map, macros+scopes, "
               "table, two failing ones, one that relies on names being absent) is assembled twice and must give the blocks, labels, "
               "symbols and error text of the probe assembled alone; one baseline per probe also comes from a real fresh interpreter. "
               "Each unit test builds one Program in isolation.")
@@ -36,7 +36,7 @@ ASSUMPTIONS = ["a forked child of a process that only imported a816 is equivalen
 
 TBL_E = "41=a\n42=b\n"
 TBL_P = "10=a\n2021=b\n"
-FILES = {"e.tbl": TBL_E, "p.tbl": TBL_P, "blob.bin": bytes(range(16)), "inc.s": "incl:\n.dw incl\n"}
+FILES = {"e.tbl": TBL_E, "p.tbl": TBL_P, "blob.bin": bytes(range(16)), "inc.s": "incl:\n.dw incl\n", "badinc.s": "; included file with an error\n.bogus 1\n"}
 
 EVENTS = {
     "valid": ("*=0x018000\nstart:\nlda.w #0x1234\n.dl start\n", "low_rom"),
@@ -50,6 +50,8 @@ EVENTS = {
     "fail-labelpass": ("*=0x018000\n{\nlater = 5\nlda later\n}\n", "low_rom"),
     "fail-emit": (".table 'e.tbl'\n*=0x028000\n.db 1, 2\n{\n.dw nosuchsymbol\n}\n.db 3\n", "low_rom"),
     "cli": (None, None),
+    "fail-in-include": ("*=0x018000\n.db 1\n.include 'badinc.s'\n.db 2\n", "low_rom"),
+    "missing-include": ("*=0x018000\n.db 1\n.include 'nosuchfile.s'\n", "low_rom"),
     "reloc-files": ("*=0x018000\n.include 'inc.s'\n.incbin 'blob.bin'\n@=0x7e2000\nr:\n.pointer r\n", "low_rom"),
 }
 EVENT_NAMES = list(EVENTS)
@@ -61,15 +63,17 @@ PROBES = {
     "p-fail-node": ("*=0x018000\n.db 1\nlda.w missing_symbol\n", "low_rom"),
     "p-fail-scan": ("*=0x018000\n.db 1\n  lda 0x12,z\n", "low_rom"),
     "p-absent-names": ("*=0x018000\n.dw shared\npm(1)\n.dw ns.val\n.text 'ab'\n", "low_rom"),
+    "p-fail-include": ("*=0x018000\n.include 'inc.s'\n.include 'badinc.s'\n", "low_rom"),
+    "p-missing-include": ("*=0x018000\n.include 'inc.s'\n.include 'nosuchfile.s'\n", "low_rom"),
     "p-map": (".map identifier=1 bank_range=0x10, 0x1f addr_range=0x8000, 0xffff mask=0x8000\n*=0x108000\nm:\n.dl m\n", "low_rom"),
 }
 PROBE_NAMES = list(PROBES)
-NONTRIVIAL_EVENTS = {"defines-names", "table", "custom-map", "hirom", "fail-scanner", "fail-parser", "fail-codegen", "fail-labelpass", "fail-emit", "cli"}
+NONTRIVIAL_EVENTS = {"defines-names", "table", "custom-map", "hirom", "fail-scanner", "fail-parser", "fail-codegen", "fail-labelpass", "fail-emit", "cli", "fail-in-include", "missing-include"}
 
 
 def bound(tier):
     d = 4 if tier == "thorough" else 3
-    return f"all histories of length <= {d} over 12 events (from a pristine process each), 8 probes x 2 after every history"
+    return f"all histories of length <= {d} over 14 events (from a pristine process each), 10 probes x 2 after every history"
 
 
 def norm(text):
